@@ -26,7 +26,7 @@ From Coq Require Import List NArith ZArith Arith Bool Lia.
 From Iodine Require Import Generated.SrcConsts Base Codec CodecProofs Hostname DnsName DnsMsg Relay Negotiate NegotiateProofs.
 From Iodine Require Server ServerAuthDefs ServerAuthFinal.
 From Iodine Require Import Startup StartupProofs.
-From Iodine Require Import Handshake HandshakeProofs.
+From Iodine Require Import Handshake HandshakeProofs HandshakeGen.
 Import ListNotations.
 Local Open Scope N_scope.
 
@@ -326,6 +326,44 @@ Proof.
 Qed.
 Print Assumptions C11_test_sequencing.
 
+(* ------------------------------------------------------------------------------------------ *)
+(* C11_handshake_computes_decisions: the four autodetect steps are written once over an abstract world that
+   answers queries (HandshakeGen.v) and instantiated twice.
+   (a) With the script world they are, for every state and script, the steps of the sequencing model
+       Handshake.v -- the model that checks/c06.py compares with the real client_handshake on scripted replies.
+   (b) With a deterministic responder R (for the test named by its command letter and tag -- the pattern, the
+       codec letter, the size, the type index and round -- the bytes the client extracts from the fitting reply,
+       or None when no reply ever comes; never an empty reply) they return exactly what the decision functions
+       of Negotiate.v return on the evaluations of R's answers: upenc_autodetect, downenc_autodetect (for the
+       query type in force), autoprobe, qtype_autodetect.
+   So the decision logic the soundness theorems above are about is what the handshake's retry / time-out
+   sequencing computes on every path that answers consistently: three attempts, one query each, the first
+   usable reply taken. *)
+Theorem C11_handshake_computes_decisions :
+  (forall s l, g_upenc_auto (list item) ask_script s l = hs_upenc_auto s l) /\
+  (g_downenc_auto (list item) ask_script = hs_downenc_auto) /\
+  (forall s l, g_autoprobe (list item) ask_script s l = hs_autoprobe s l) /\
+  (forall rounds timeout highest s l,
+     g_qtype_rounds (list item) ask_script rounds timeout highest s l = hs_qtype_rounds rounds highest s l) /\
+  (forall (R : N -> list N -> option (list N)), (forall c t, R c t <> Some []) -> forall s,
+     fst (fst (g_upenc_auto unit (ask_resp R) s tt)) = upenc_autodetect (fun p => upenctest_eval p (R 122 p)) /\
+     fst (fst (g_downenc_auto unit (ask_resp R) s tt)) =
+       downenc_autodetect (h_qtype s) (fun l => downenctest_eval (R 121 [l])) /\
+     fst (fst (g_autoprobe unit (ask_resp R) s tt)) = autoprobe (fun p => probe_eval (R 114 (size_tag p)) p) /\
+     (let h := fst (fst (g_qtype_rounds unit (ask_resp R) (N.to_nat src_QTYPE_TIMEOUT_MAX) 1 100 s tt)) in
+      (if (h <? ntypes)%nat then Some h else None) = qtype_autodetect (qtest R))).
+Proof.
+  split; [exact gen_upenc_auto_script |].
+  split; [exact gen_downenc_auto_script |].
+  split; [exact gen_autoprobe_script |].
+  split; [exact gen_qtype_rounds_script |].
+  intros R HR s.
+  split; [exact (resp_upenc_auto R HR s) |].
+  split; [exact (resp_downenc_auto R HR s) |].
+  split; [exact (resp_autoprobe R HR s) | exact (resp_qtype_auto R s)].
+Qed.
+Print Assumptions C11_handshake_computes_decisions.
+
 (* non-vacuity of the prompt clause: a NULL answer to a 'y' query carrying the check string, delivered with the id
    and command letter of the query just sent, is a prompt reply, and the downstream test evaluates to true on it *)
 Definition ex_y_reply : list N := [0; 0; 132; 0; 0; 1; 0; 1; 0; 0; 0; 0; 5; 121; 97; 97; 97; 113; 1; 116; 7; 101; 120; 97; 109; 112; 108; 101; 3; 99; 111; 109; 0; 0; 10; 0; 1; 192; 12; 0; 10; 0; 1; 0; 0; 0; 0; 0; 48; 0; 0; 0; 0; 255; 255; 255; 255; 85; 85; 85; 85; 170; 170; 170; 170; 129; 99; 200; 210; 199; 124; 178; 23; 95; 79; 206; 201; 73; 45; 82; 33; 97; 169; 113; 32; 37; 179; 6; 115; 230; 216; 68; 48; 121; 80; 87; 191]%N.
@@ -338,4 +376,20 @@ Proof.
   - exists 2, ex_y_reply. split; [reflexivity |].
     split; [vm_compute; reflexivity |]. split; [vm_compute; discriminate |]. split; vm_compute; reflexivity.
   - vm_compute; reflexivity.
+Qed.
+
+(* non-vacuity of the responder clause: a transparent path (every upstream pattern comes back behind the 4-byte
+   header, every downstream check string intact, no probe answered) is a responder without empty replies; on it
+   the handshake's upstream autodetect returns 3 (Base128) and, for TXT queries, the downstream autodetect 'R' *)
+Definition ex_R : N -> list N -> option (list N) :=
+  fun c t => if c =? 122 then Some ([122; 97; 98; 99] ++ t) else if c =? 121 then Some src_DOWNCODECCHECK1 else None.
+Example ex_responder :
+  (forall c t, ex_R c t <> Some []) /\
+  (let s0 := hs_init 1000 16 0%Z 0%Z true 32 [] [] in
+   fst (fst (g_upenc_auto unit (ask_resp ex_R) s0 tt)) = 3 /\
+   fst (fst (g_downenc_auto unit (ask_resp ex_R) s0 tt)) = 82).
+Proof.
+  split.
+  - intros c t; unfold ex_R. destruct (c =? 122); [discriminate |]. destruct (c =? 121); discriminate.
+  - vm_compute. split; reflexivity.
 Qed.
